@@ -990,16 +990,32 @@ void tickit_renderbuffer_flush_to_term(TickitRenderBuffer *rb, TickitTerm *tt)
           {
             TickitStringPos start, end, limit;
             const char *text = tickit_string_get(cell->v.text.s);
+            int offs = cell->v.text.offs;
 
-            tickit_stringpos_limit_columns(&limit, cell->v.text.offs);
+            tickit_stringpos_limit_columns(&limit, offs);
             tickit_utf8_count(text, &start, &limit);
+            if(start.columns < offs) {
+              /* The span begins in the middle of a double-width character
+               * whose first half is no longer visible; step over it */
+              limit.columns = offs + 1;
+              tickit_utf8_countmore(text, &start, &limit);
+            }
 
-            limit.columns += cell->cols;
+            limit.columns = offs + cell->cols;
             end = start;
             tickit_utf8_countmore(text, &end, &limit);
 
             tickit_term_setpen(tt, cell->pen);
-            tickit_term_printn(tt, text + start.bytes, end.bytes - start.bytes);
+
+            /* The visible half of a double-width character at either end of
+             * the span is shown as a blank, so exactly cell->cols columns are
+             * printed, and never a zero-length string */
+            for(int i = offs; i < start.columns; i++)
+              tickit_term_printn(tt, " ", 1);
+            if(end.bytes > start.bytes)
+              tickit_term_printn(tt, text + start.bytes, end.bytes - start.bytes);
+            for(int i = end.columns; i < offs + cell->cols; i++)
+              tickit_term_printn(tt, " ", 1);
 
             phycol += cell->cols;
           }
